@@ -280,6 +280,29 @@ def run(chk):
                        for e, val in u.guards(n))
     chk.ob('C14-R3', stop_checked, None, 're-queueing only when no stop signal',
            'the stop signal is not consulted before re-queueing', fi=u.fi, node=st)
+  # position of the re-queued action: behind the members of ITS OWN iteration
+  # that are still at the head of the queue - not behind members of another
+  # iteration (two adjacent iteration blocks would interleave their rounds and
+  # the later one would read tables the earlier one is still recomputing)
+  one = [p_ for p_ in u.fi.params if p_ != 'self'][0]
+  skips = [x for x in walk_local(u.fi.node) if isinstance(x, ast.While)]
+  same_iter = False
+  for w in skips:
+    for c in ast.walk(u.expand(w.test)):
+      if isinstance(c, ast.Compare) and len(c.ops) == 1 and isinstance(c.ops[0], ast.Eq):
+        l, r_ = norm(c.left, 300), norm(c.comparators[0], 300)
+        if 'action_iteration[' in l and 'action_iteration[' in r_ and \
+            ((one in l) != (one in r_)) and ('actions_to_run' in l or 'actions_to_run' in r_):
+          same_iter = True
+  if skips or any(call_tail(st.value) == 'insert' if isinstance(st, ast.Expr) else True
+                  for n, st in requeue):
+    chk.ob('C14-R3', same_iter, None,
+           'a re-queued action goes behind the queued members of its own iteration only',
+           'the position search does not compare the iteration of the queued '
+           'action with the iteration of the action being re-queued: rounds of '
+           'adjacent iterations interleave, a statement runs before its input '
+           'iteration has finished', fi=u.fi)
+
   # the iteration table of an execution is built once and never edited
   um = repo.by_name('universe')
   bad = []
